@@ -1,4 +1,4 @@
-FIX_COMMITS = []
+FIX_COMMITS = ['e97b536', '3c9d141', 'bfe05b2', 'e1b1b5d', 'd643d40', '6312ee2', '6ff83de', '1b75f22', '311676b', '6e8e836']
 NOT_BUILT = {}
 _T = "bounded exhaustive enumeration of input/configuration spaces executed on the real code, compared case-by-case with a naive reference model"
 CHECKS = {
@@ -7,3 +7,19 @@ CHECKS = {
    note="Trusted: CPython, the reference model in /verif/mc/refmodel.py (self-checked against BFS on the one-edit graph at start-up). Bounds in evidence.coverage.spaces.",
    technique=_T),
 }
+
+def _c(text, note, technique=_T):
+    return dict(text=text, note=note, technique=technique)
+
+_N = "Trusted: CPython/NumPy/pandas as the execution substrate, the naive reference models in /verif/mc/refmodel.py. Bounds and per-class counters in the evidence file."
+CHECKS.update({
+ "C02": _c("Every sequence of length N over N symbols (all multiplicity patterns in all orders, N<=6/7) under 4 relabellings and 3 containers, all sample pairs up to size 4/5, and all small tables over a collision-prone cell alphabet are run through pc/pc_n/pc_joint and compared exactly with a literal double loop in rationals.", _N),
+ "C03": _c("ref=query=whole universe in one call, all (ref,query) list pairs of the bound on symdel/nearest_neighbor/SymdelDB/LookupDB against the reference set, plus every look-up history up to depth 2/3 on live index objects (no-dedup) and a BFS over canonical index states to closure.", _N, "bounded exhaustive input enumeration + BFS over look-up histories on live index objects, reference model as oracle"),
+ "C04": _c("hash_based and kdtree on every string up to length 5-7 over three bin-straddling 3-letter alphabets, all lists, radius-boundary family and CDR3 edit-ball families; compared with the absolute reference and with nearest_neighbor.", _N),
+ "C06": _c("For every (N,K) of the bound the unbiasedness claim is a polynomial identity in p, decided by enumerating every count vector and comparing M(n) f(n) with the coefficient obtained by explicit polynomial multiplication, exactly on Fraction arrays and to 1e-12 on integer arrays.", _N, "exhaustive enumeration of all count vectors per (N,K) with exact rational arithmetic (completeness of the multinomial family turns the for-all-p claim into a finite check)"),
+ "C07": _c("Every interleaving of lengths (all lists up to length 4/5 over 14 strings of length 1..3) and mixed-length universes in three orders on all engines in Hamming mode against the equal-length mismatch reference.", _N),
+ "C10": _c("Every logical search call of the bound under all 3 output types x 7 containers (self) / container star (two-collection) on all engines, matrices compared entry by entry and COO coordinates checked for duplicates; 18 invalid-argument classes on every engine must raise.", _N),
+ "C11": _c("kdtree on the real multiprocessing.Pool over the full n_cpu x list-size x mode grid, every compression 1..25, and - with nn.Pool replaced by a virtual pool with fork-snapshot semantics - every chunk-to-worker assignment and completion order; max_returns checked per query.", _N + " Real OS timing is not controlled (Pool.map order contract + virtual pool).", "exhaustive configuration grid on the real pool + exhaustive schedule enumeration (choice-point DFS) over a virtual multiprocessing.Pool"),
+ "C14": _c("Seven symmetric custom distances x max_edits x 8 max_custom_distance values on every engine over universes and all lists; nearest_neighbor_tcrdist over all small TCR tables x chain x trimming x radii against the same composition written naively (pwseqdist stand-in); both V-gene CSV tables entry by entry.", _N + " pwseqdist is a vendored stand-in (/verif/standins)."),
+ "C16": _c("All frequency-of-frequency vectors of the bound through chao1/var_chao1/chao2/var_chao2 against rational closed forms; all 156x156 collection pairs over {a,b,c,None,NaN} in list/tuple/set/Series through the three overlap measures against plain set algebra.", _N),
+})
